@@ -171,6 +171,18 @@ def compare(ref_occ, cur_occ, limit=8192, ambiguous=(), ref_keys=None, cur_keys=
     if json.dumps(ref_occ, sort_keys=True) == json.dumps(cur_occ, sort_keys=True):
         return 'ok', ''
     ref_all, cur_all = set(_all_vars(ref_occ)), set(_all_vars(cur_occ))
+    # the same subject looked up in another table (`x in self.a` -> `x in self.b`)
+    o_r, o_c = ref_all - cur_all, cur_all - ref_all
+    if o_r and o_c:
+        lr = {_loose(v): v for v in o_r if _loose(v)}
+        lc = {_loose(v): v for v in o_c if _loose(v)}
+        same = [k for k in lr if k in lc]
+        if same and len(o_r) == len(o_c) == len(same):
+            import re as _re
+            k = same[0]
+            idents = set(_re.findall(r'[A-Za-z_][A-Za-z_0-9]*', lr[k][3] + ' ' + lc[k][3]))
+            if not (idents & set(ambiguous)):
+                return 'changed', '%s in %s -> in %s' % (k[1], lr[k][3], lc[k][3])
     ref_occ = _strip_memo(ref_occ, cur_all, cur_keys)
     cur_occ = _strip_memo(cur_occ, ref_all, ref_keys)
     rv, cv = _all_vars(ref_occ), _all_vars(cur_occ)
